@@ -21,7 +21,7 @@ RULE = (
     "caller-held values survive). The same graphs with the interrupt inside a nested graph (depth 1-2) for pause identity. AsyncRunner under SimLoop with "
     "seeded delays on siblings and handlers. Reference = the run in which every handler itself returns the response. Non-trivial = at least one pause and "
     "one resume happened; distinct = digest of (program shape, interrupt positions, script, schedule)."
-    ' Also: legal but falsy answers (0, False, "", []), interrupts that emit a signal a further node waits for, explicit select of all outputs with on_missing="error" on every call, wrappers mounted under a node name that differs from the inner graph\'s name, at most one handler may return None per run.'
+    ' Also: legal but falsy answers (0, False, "", []), interrupts that emit a signal a further node waits for, explicit select of all outputs with on_missing="error" on every call, wrappers mounted under a node name that differs from the inner graph\'s name, at most one handler may return None per run; cacheable interrupts on a cache-enabled runner: unanswered / answered / unanswered again / answered differently, each compared with the same call on a runner without a cache.'
 )
 ASSUMPTIONS = [
     "consumers of an interrupt's output never carry a signature default for it (such a consumer legitimately runs early)",
@@ -77,7 +77,8 @@ def gen_case(rng: random.Random, tier: str) -> dict:
                 p.pop("default", None)
     nest = rng.choice([0, 0, 0, 1, 2])
     inp = gen.gen_inputs(rng, g, p_bind=0.0, p_omit=0.3)
-    return {"graph": g, "inputs": inp, "script": script, "nest": nest, "nest_seed": rng.randrange(1 << 30), "cfg": gen.gen_async_cfg(rng, allow_hold=False), "ref_cfg": gen.gen_async_cfg(rng, allow_hold=False),
+    cache_ints = sorted(nd["name"] for nd in g["nodes"] if nd["kind"] == "interrupt" and rng.random() < 0.7) if rng.random() < 0.3 else []
+    return {"cache_ints": cache_ints, "graph": g, "inputs": inp, "script": script, "nest": nest, "nest_seed": rng.randrange(1 << 30), "cfg": gen.gen_async_cfg(rng, allow_hold=False), "ref_cfg": gen.gen_async_cfg(rng, allow_hold=False),
             "explicit_select": rng.random() < 0.3}  # select=<all data outputs>, on_missing="error" on every call of the history
 
 
@@ -171,6 +172,8 @@ def run_case(doc: dict) -> dict:
 
         if doc["nest"]:
             _nested_identity(doc, base_vals, ref_args, res, rts, viol)
+        if doc.get("cache_ints"):
+            _cached_history(doc, base_vals, ref_args, rkw, res, rts, viol)
         held = dict(base_vals)  # what the caller holds: survives a pause
         answered: set[str] = set()
         pauses = resumes = 0
@@ -287,6 +290,54 @@ def run_case(doc: dict) -> dict:
     res["sig"] = digest([res["shape"], canon(inp), res["sched"]], 8)
     res["hdigest"] = hist_digest(rts)
     return res
+
+
+def _cached_history(doc, base_vals, ref_args, rkw, res, rts, viol) -> None:
+    """Cacheable interrupts on a runner with a cache: every call of a pause/answer history behaves as on a runner without one.
+
+    Calls: (1) nothing answered, (2) every pausing interrupt answered, (3) nothing answered again, (4) every pausing interrupt answered
+    DIFFERENTLY. Each is made on one shared InMemoryCache and, for comparison, without any cache.
+    """
+    from hypergraph import InMemoryCache
+
+    g = doc["graph"]
+    script = doc["script"]
+    gs = copy.deepcopy(g)
+    answers: dict = {}
+    answers_alt: dict = {}
+    for nd in gs["nodes"]:
+        if nd["kind"] != "interrupt":
+            continue
+        nd["script"] = list(script.get(nd["name"], []))
+        if nd["name"] in doc["cache_ints"]:
+            nd["cache"] = True
+        if script.get(nd["name"]) == ["pause"]:
+            rargs = ref_args.get(nd["name"], {})
+            resp = interrupt_response(nd, {q["name"]: rargs.get(q["name"]) for q in nd["params"]})
+            if len(nd["outs"]) > 1:
+                for o in nd["outs"]:
+                    answers[o] = resp[o]
+                    answers_alt[o] = ["alt", resp[o]]
+            else:
+                answers[nd["outs"][0]] = resp
+                answers_alt[nd["outs"][0]] = ["alt", resp]
+    if not answers:
+        return
+    cache = InMemoryCache()
+    calls = [("unanswered", {}), ("answered", answers), ("unanswered_again", {}), ("answered_differently", answers_alt)]
+    for label, extra in calls:
+        held = dict(base_vals, **extra)
+        outs = []
+        for c in (cache, None):
+            w = run_world(copy.deepcopy(gs), dict(held), mode="async", cfg=doc["cfg"], run_kwargs=dict(rkw), cache=c)
+            rts.append(w["rt"])
+            res["runs"] += 1
+            o = w["out"]
+            outs.append([o["status"], canon(o["values"]), (o["pause"] or {}).get("node_name"), o["error"]])
+        res["stats"]["cached_interrupt_calls"] = res["stats"].get("cached_interrupt_calls", 0) + 1
+        if outs[0] != outs[1]:
+            viol.append((f"cached_history[{label}]:run_with_cache_differs_from_run_without", {"with_cache": outs[0], "without": outs[1], "cacheable_interrupts": doc["cache_ints"], "supplied": sorted(extra)}))
+            return
 
 
 def _nested_identity(doc, base_vals, ref_args, res, rts, viol) -> None:
